@@ -192,10 +192,10 @@ Proof. unfold dropped. intros. now rewrite find_sleep_none. Qed.
 
 Lemma inv_cancel_step : forall s o, inv_cancel s -> inv_cancel (step_st s o).
 Proof.
-  intros s o [R S]. unfold step_st.
+  intros s o I. pose proof I as [R S]. unfold step_st.
   destruct o; cbn [step].
-  - (* Tick *) split; [exact R | exact S].
-  - (* HSleep *) unfold do_sleep. destruct (handles s && (0 <=? dur)) eqn:G; [|split; assumption].
+  - (* Tick *) exact I.
+  - (* HSleep *) unfold do_sleep. destruct (handles s && (0 <=? dur)) eqn:G; [|exact I].
     cbn. split.
     + intros id D. apply dropped_ids in D. cbn in D. destruct D as [A B].
       rewrite map_app, in_app_iff in B. cbn in B.
@@ -215,13 +215,13 @@ Proof.
       apply Z.eqb_neq. intro; subst. tauto.
     + rewrite Hp, Hha. intros P. destruct (S P) as [E F]. split; [|assumption].
       apply map_eq_nil with (f := s_id). rewrite Hids, E. reflexivity.
-  - (* SElapsed *) unfold do_elapsed. destruct (find_sleep id (sleeps s)); split; assumption.
-  - (* SReset *) unfold do_reset. destruct (find_sleep id (sleeps s)) eqn:F; [|split; assumption].
+  - (* SElapsed *) unfold do_elapsed. destruct (find_sleep id (sleeps s)); exact I.
+  - (* SReset *) unfold do_reset. destruct (find_sleep id (sleeps s)) eqn:F; [|exact I].
     cbn. split.
     + intros i D. apply dropped_ids in D. cbn in D. rewrite upd_sleep_ids in D.
       apply R. now apply dropped_ids.
     + intros P. destruct (S P) as [E _]. rewrite E in F. discriminate.
-  - (* SDrop *) unfold do_drop. destruct (find_sleep id (sleeps s)) eqn:F; [|split; assumption].
+  - (* SDrop *) unfold do_drop. destruct (find_sleep id (sleeps s)) eqn:F; [|exact I].
     cbn. split.
     + intros i D. apply dropped_ids in D. cbn in D. destruct D as [A B].
       rewrite del_sleep_ids in B.
@@ -229,36 +229,39 @@ Proof.
       { intro P. destruct (S P) as [E _]. rewrite E in F. discriminate. }
       assert (Q : (match pc s with Stopped => queue s | _ => queue s ++ [MCancel id] end)
                   = queue s ++ [MCancel id]) by (destruct (pc s); congruence).
-      rewrite Q, residue_app. cbn.
+      cbn [queue heap]. rewrite Q, residue_app. cbn [residue].
       destruct (Z.eq_dec i id) as [->|N].
       * now rewrite Z.eqb_refl.
       * assert (id =? i = false) as -> by (apply Z.eqb_neq; congruence).
         apply R. apply dropped_ids. split; [assumption|]. tauto.
     + intros P. destruct (S P) as [E _]. rewrite E in F. discriminate.
-  - (* TFire *) unfold do_fire. destruct (pc s) eqn:P; try (split; assumption).
-    destruct (find_tok tok (heap s)) eqn:F; [|split; assumption].
-    destruct (is_min w (heap s) && (w_dl w <? clock s)); [|split; assumption].
-    cbn. split; [|discriminate].
-    intros i D. eapply residue_le; [|apply (R i D)].
+  - (* TFire *) unfold do_fire. destruct (pc s) eqn:P; try (exact I).
+    destruct (find_tok tok (heap s)) eqn:F; [|exact I].
+    destruct (is_min w (heap s) && (w_dl w <? clock s)); [|exact I].
+    cbn [fst]. split; [|discriminate].
+    intros i D. cbn [queue heap]. eapply residue_le; [|apply (R i D)].
     intros H. destruct (heap_has i (heap s)) eqn:E; [reflexivity|].
     rewrite (heap_has_del_tok _ tok _ E) in H. discriminate.
-  - (* TIdle *) unfold do_idle. destruct (pc s) eqn:P; try (split; assumption).
-    destruct (none_due (clock s) (heap s)); [|split; assumption].
+  - (* TIdle *) unfold do_idle. destruct (pc s) eqn:P; try (exact I).
+    destruct (none_due (clock s) (heap s)); [|exact I].
     cbn. split; [exact R | discriminate].
-  - (* TRecv *) unfold do_recv. destruct (pc s) eqn:P; try (split; assumption).
-    destruct (queue s) as [|[w|i] q] eqn:Q; try (split; assumption); cbn; (split; [|discriminate]).
-    + intros i D. specialize (R i D). rewrite Q in R. cbn in R.
-      cbn. rewrite orb_comm. exact R.
-    + intros j D. specialize (R j D). rewrite Q in R. cbn in R.
-      now rewrite heap_has_remove.
-  - (* TTimeout *) unfold do_timeout. destruct (pc s) eqn:P; try (split; assumption).
-    destruct lim; [|split; assumption]. destruct (z <=? clock s); [|split; assumption].
+  - (* TRecv *) unfold do_recv. destruct (pc s) eqn:P; try (exact I).
+    destruct (queue s) as [|[w|i] q] eqn:Q; try (exact I); cbn; (split; [|discriminate]).
+    + intros i D. specialize (R i D). try rewrite Q in R. cbn in R.
+      cbn [queue heap heap_has existsb]. fold (heap_has i (heap s)). rewrite orb_comm. exact R.
+    + intros j D. specialize (R j D). try rewrite Q in R. cbn in R.
+      cbn [queue heap]. now rewrite heap_has_remove.
+  - (* TTimeout *) unfold do_timeout. destruct (pc s) eqn:P; try (exact I).
+    destruct lim; [|exact I]. destruct (z <=? clock s); [|exact I].
     cbn. split; [exact R | discriminate].
-  - (* TStop *) unfold do_stop. destruct (pc s) eqn:P; try (split; assumption).
-    destruct (queue s) eqn:Q; try (split; assumption).
-    destruct (sleeps s) eqn:L; try (split; assumption).
-    destruct (handles s) eqn:Hh; try (split; assumption).
-    cbn. split; [|auto]. intros i D. specialize (R i D). now rewrite Q in R.
+  - (* TStop *) unfold do_stop. destruct (pc s) eqn:P; try (exact I).
+    destruct (queue s) eqn:Q; try (exact I).
+    destruct (sleeps s) eqn:L; try (exact I).
+    destruct (handles s) eqn:Hh; try (exact I).
+    cbn. split; [|auto]. intros i D.
+    assert (D0 : dropped i s).
+    { apply dropped_ids. apply dropped_ids in D. cbn in D. rewrite L. exact D. }
+    exact (R i D0).
 Qed.
 
 Lemma run_app : forall a b s, run (a ++ b) s = run b (run a s).
@@ -268,4 +271,725 @@ Lemma inv_cancel_run : forall ops s, inv_cancel s -> inv_cancel (run ops s).
 Proof.
   induction ops as [|o ops IH]; cbn; intros s H; [assumption|].
   apply IH. now apply inv_cancel_step.
+Qed.
+
+(* ------------------------------------------- after the Cancel was consumed *)
+Definition quiet (id : Z) (s : st) : Prop :=
+  dropped id s /\ heap_has id (heap s) = false /\ existsb (is_wake_of id) (queue s) = false.
+
+Lemma consumed_quiet : forall id s,
+  inv_cancel s -> dropped id s -> cancel_consumed id s -> quiet id s.
+Proof.
+  intros id s [R _] D C. specialize (R id D). unfold cancel_consumed in C.
+  rewrite residue_no_cancel in R by assumption. apply orb_false_iff in R. destruct R. now split.
+Qed.
+
+Lemma poll_log : forall s id delta i,
+  woken_of i (log (fst (do_poll s id delta))) = woken_of i (log s).
+Proof.
+  intros. unfold do_poll. destruct (find_sleep id (sleeps s)); [|reflexivity].
+  destruct (elapsed s0 (clock s)); [destruct (s_dl s0); reflexivity|].
+  cbn zeta. destruct (pc s); reflexivity.
+Qed.
+
+Lemma existsb_app_false : forall A (f : A -> bool) l x,
+  existsb f l = false -> f x = false -> existsb f (l ++ [x]) = false.
+Proof. intros. rewrite existsb_app. cbn. now rewrite H, H0. Qed.
+
+Lemma quiet_step : forall id s o, quiet id s ->
+  quiet id (step_st s o) /\ woken_of id (log (step_st s o)) = woken_of id (log s).
+Proof.
+  intros id s o Qt. pose proof Qt as (D & Hh & Hq). unfold step_st.
+  destruct o; cbn [step].
+  - (* Tick *) split; [exact Qt | reflexivity].
+  - (* HSleep *) unfold do_sleep. destruct (handles s && (0 <=? dur)); [|split; [exact Qt|reflexivity]].
+    cbn. split; [|reflexivity]. split; [|split; assumption].
+    apply dropped_ids in D. apply dropped_ids. cbn. rewrite map_app, in_app_iff. cbn.
+    destruct D as [A B]. split; [lia|]. intros [H|[H|[]]]; [tauto|lia].
+  - split; [exact Qt | reflexivity].
+  - (* SPoll *)
+    pose proof (poll_shape s id0 delta) as H. cbn zeta in H.
+    destruct H as (Hn & Hhp & Hp & Hha & Hids & Hqq).
+    split; [|apply poll_log]. split; [|split].
+    + apply dropped_ids. apply dropped_ids in D. now rewrite Hn, Hids.
+    + now rewrite Hhp.
+    + destruct Hqq as [E | (w & E & Hw & Hin & _)]; rewrite E; [assumption|].
+      apply existsb_app_false; [assumption|]. cbn. apply Z.eqb_neq. intro; subst id.
+      apply dropped_ids in D. rewrite Hw in D. tauto.
+  - (* SElapsed *) unfold do_elapsed. destruct (find_sleep id0 (sleeps s)); (split; [exact Qt|reflexivity]).
+  - (* SReset *) unfold do_reset. destruct (find_sleep id0 (sleeps s)); [|split; [exact Qt|reflexivity]].
+    cbn. split; [|reflexivity]. split; [|split; assumption].
+    apply dropped_ids. apply dropped_ids in D. cbn. now rewrite upd_sleep_ids.
+  - (* SDrop *) unfold do_drop. destruct (find_sleep id0 (sleeps s)); [|split; [exact Qt|reflexivity]].
+    cbn [fst log woken_of filter]. split; [|reflexivity]. split; [|split].
+    + apply dropped_ids. apply dropped_ids in D. cbn. rewrite del_sleep_ids. tauto.
+    + exact Hh.
+    + cbn [queue]. destruct (pc s); try assumption; (apply existsb_app_false; [assumption|reflexivity]).
+  - (* TFire *) unfold do_fire. destruct (pc s); try (split; [exact Qt|reflexivity]).
+    destruct (find_tok tok (heap s)) eqn:F; [|split; [exact Qt|reflexivity]].
+    destruct (is_min w (heap s) && (w_dl w <? clock s)); [|split; [exact Qt|reflexivity]].
+    cbn [fst log woken_of filter]. split.
+    + split; [exact D|]. split; [|exact Hq]. cbn [heap]. now apply heap_has_del_tok.
+    + apply find_tok_in in F. destruct F as [F _].
+      pose proof (proj1 (heap_has_false id (heap s)) Hh w F) as N.
+      apply Z.eqb_neq in N. now rewrite N.
+  - (* TIdle *) unfold do_idle. destruct (pc s); try (split; [exact Qt|reflexivity]).
+    destruct (none_due (clock s) (heap s)); split; try exact Qt; reflexivity.
+  - (* TRecv *) unfold do_recv. destruct (pc s); try (split; [exact Qt|reflexivity]).
+    destruct (queue s) as [|[w|i] q] eqn:Q; try (split; [exact Qt|reflexivity]).
+    + cbn [existsb is_wake_of] in Hq. apply orb_false_iff in Hq. destruct Hq as [Hq1 Hq2].
+      cbn [fst log woken_of filter]. split; [|reflexivity]. split; [exact D|split]; cbn [heap queue]; [|assumption].
+      cbn [heap_has existsb]. fold (heap_has id (heap s)). now rewrite Hq1, Hh.
+    + cbn [existsb is_wake_of orb] in Hq.
+      cbn [fst log woken_of filter]. split; [|reflexivity]. split; [exact D|split]; cbn [heap queue]; [|assumption].
+      rewrite heap_has_remove. now destruct (i =? id).
+  - (* TTimeout *) unfold do_timeout. destruct (pc s); try (split; [exact Qt|reflexivity]).
+    destruct lim; [|split; [exact Qt|reflexivity]].
+    destruct (z <=? clock s); split; try exact Qt; reflexivity.
+  - (* TStop *) unfold do_stop. destruct (pc s); try (split; [exact Qt|reflexivity]).
+    destruct (queue s) eqn:Q; try (split; [exact Qt|reflexivity]).
+    destruct (sleeps s) eqn:L; try (split; [exact Qt|reflexivity]).
+    destruct (handles s) eqn:Hhh; try (split; [exact Qt|reflexivity]).
+    cbn. split; [|reflexivity]. split; [|split; assumption].
+    apply dropped_ids. apply dropped_ids in D. cbn. rewrite L in D. exact D.
+Qed.
+
+Lemma quiet_run : forall id ops s, quiet id s ->
+  quiet id (run ops s) /\ woken_of id (log (run ops s)) = woken_of id (log s).
+Proof.
+  induction ops as [|o ops IH]; intros s Qt; [split; [assumption|reflexivity]|].
+  change (run (o :: ops) s) with (run ops (step_st s o)).
+  destruct (quiet_step id s o Qt) as [Q1 E1]. destruct (IH _ Q1) as [Q2 E2].
+  split; [assumption | now rewrite E2].
+Qed.
+
+Definition reachable (s : st) : Prop := exists ops, s = run ops init.
+
+(* cancel_removes_all *)
+Theorem cancel_removes_all : forall s id more,
+  reachable s -> dropped id s -> cancel_consumed id s ->
+  woken_of id (log (run more s)) = woken_of id (log s).
+Proof.
+  intros s id more [ops ->] D C.
+  apply quiet_run. apply consumed_quiet; auto. apply inv_cancel_run, inv_cancel_init.
+Qed.
+
+(* ------------------------------------------------------- time invariant *)
+Definition ev_ok (c : Z) (e : ev) : Prop :=
+  match e with
+  | EvReady id now dl t0 dur => dl < now <= c /\ dl = add_dur t0 dur /\ t0 <= now
+  | EvWoken w now => w_dl w < now <= c
+  | _ => True
+  end.
+Definition sleep_ok (c : Z) (sl : sleep) : Prop :=
+  match s_dl sl with
+  | Some d => d = add_dur (s_t0 sl) (s_dur sl) /\ s_t0 sl <= c
+  | None => True
+  end.
+Definition inv_time (s : st) : Prop :=
+  Forall (ev_ok (clock s)) (log s) /\ Forall (sleep_ok (clock s)) (sleeps s).
+
+Lemma ev_ok_mono : forall c c' e, c <= c' -> ev_ok c e -> ev_ok c' e.
+Proof. intros c c' [] L; cbn; intros; try exact I; lia. Qed.
+Lemma sleep_ok_mono : forall c c' sl, c <= c' -> sleep_ok c sl -> sleep_ok c' sl.
+Proof. unfold sleep_ok. intros c c' sl L. destruct (s_dl sl); [|auto]. intros [A B]. split; [assumption|lia]. Qed.
+
+Lemma Forall_upd : forall (P : sleep -> Prop) s' l, Forall P l -> P s' -> Forall P (upd_sleep s' l).
+Proof.
+  intros P s' l H Hs. apply Forall_forall. intros x Hx.
+  destruct (upd_sleep_in _ _ _ Hx); [subst; assumption|]. rewrite Forall_forall in H. auto.
+Qed.
+
+Lemma inv_time_init : inv_time init.
+Proof. split; constructor. Qed.
+
+Lemma inv_time_step : forall s o, inv_time s -> inv_time (step_st s o).
+Proof.
+  intros s o I. pose proof I as [L S]. unfold step_st.
+  destruct o; cbn [step].
+  - (* Tick *) unfold do_tick, inv_time. cbn [fst clock log sleeps]. split.
+    + eapply Forall_impl; [|exact L]. intros e. apply (ev_ok_mono (clock s)). lia.
+    + eapply Forall_impl; [|exact S]. intros e. apply (sleep_ok_mono (clock s)). lia.
+  - unfold do_sleep. destruct (handles s && (0 <=? dur)); [|exact I]. cbn. split; [assumption|].
+    apply Forall_app. split; [assumption|]. constructor; [exact Logic.I|constructor].
+  - exact I.
+  - (* SPoll *) unfold do_poll. destruct (find_sleep id (sleeps s)) as [sl|] eqn:F; [|exact I].
+    destruct (find_sleep_in _ _ _ F) as [Hin Hid].
+    assert (Hsl : sleep_ok (clock s) sl) by (rewrite Forall_forall in S; auto).
+    unfold elapsed. destruct (s_dl sl) as [d|] eqn:Ed.
+    + unfold sleep_ok in Hsl. rewrite Ed in Hsl. destruct Hsl as [Hd Ht].
+      destruct (d <? clock s) eqn:El.
+      * apply Z.ltb_lt in El. cbn. split; [|assumption]. constructor; [|assumption].
+        cbn. repeat split; solve [lia | assumption].
+      * cbn zeta. rewrite Ed.
+        assert (Hs' : Forall (sleep_ok (clock s)) (upd_sleep sl (sleeps s))).
+        { apply Forall_upd; [assumption|]. unfold sleep_ok. rewrite Ed. auto. }
+        destruct (pc s); cbn; (split; [constructor; [exact Logic.I|assumption] | assumption]).
+    + cbn zeta. set (now2 := clock s + Z.max 0 delta).
+      assert (Hle : clock s <= now2) by (unfold now2; lia).
+      assert (Hs' : Forall (sleep_ok now2)
+                (upd_sleep (mkS id (Some (add_dur now2 (s_dur sl))) (s_dur sl) now2) (sleeps s))).
+      { apply Forall_upd.
+        - eapply Forall_impl; [|exact S]. intros e. now apply sleep_ok_mono.
+        - unfold sleep_ok. cbn. split; [reflexivity|lia]. }
+      assert (Hl' : Forall (ev_ok now2) (log s)).
+      { eapply Forall_impl; [|exact L]. intros e. now apply ev_ok_mono. }
+      destruct (pc s); cbn; (split; [constructor; [exact Logic.I|assumption] | assumption]).
+  - unfold do_elapsed. destruct (find_sleep id (sleeps s)); exact I.
+  - (* SReset *) unfold do_reset. destruct (find_sleep id (sleeps s)); [|exact I].
+    cbn. split; [assumption|]. apply Forall_upd; [assumption|]. unfold sleep_ok. cbn. split; [reflexivity|lia].
+  - (* SDrop *) unfold do_drop. destruct (find_sleep id (sleeps s)); [|exact I].
+    cbn. split; [constructor; [exact Logic.I|assumption]|].
+    apply Forall_forall. intros x Hx. apply del_sleep_in in Hx. rewrite Forall_forall in S. auto.
+  - (* TFire *) unfold do_fire. destruct (pc s); try exact I.
+    destruct (find_tok tok (heap s)); [|exact I].
+    destruct (is_min w (heap s) && (w_dl w <? clock s)) eqn:G; [|exact I].
+    apply andb_true_iff in G. destruct G as [_ G]. apply Z.ltb_lt in G.
+    cbn. split; [|assumption]. constructor; [cbn; lia|assumption].
+  - unfold do_idle. destruct (pc s); try exact I. destruct (none_due (clock s) (heap s)); exact I.
+  - unfold do_recv. destruct (pc s); try exact I.
+    destruct (queue s) as [|[w|i] q]; try exact I; cbn; (split; [|assumption]); try assumption.
+    constructor; [exact Logic.I|assumption].
+  - unfold do_timeout. destruct (pc s); try exact I. destruct lim; [|exact I].
+    destruct (z <=? clock s); exact I.
+  - unfold do_stop. destruct (pc s); try exact I. destruct (queue s); try exact I.
+    destruct (sleeps s) eqn:E; try exact I. destruct (handles s); try exact I.
+    cbn. split; [assumption|constructor].
+Qed.
+
+Lemma inv_time_run : forall ops s, inv_time s -> inv_time (run ops s).
+Proof.
+  induction ops as [|o ops IH]; intros s H; [assumption|].
+  change (run (o :: ops) s) with (run ops (step_st s o)). apply IH. now apply inv_time_step.
+Qed.
+
+(* no_early_completion: a Poll::Ready is only ever returned at a clock reading
+   strictly after the deadline, and the deadline is reset-time + duration *)
+Theorem no_early_completion : forall ops id now dl t0 dur,
+  In (EvReady id now dl t0 dur) (log (run ops init)) ->
+  dl < now /\ dl = add_dur t0 dur /\ (t0 + dur <= instant_max -> dur < now - t0).
+Proof.
+  intros ops id now dl t0 dur H.
+  destruct (inv_time_run ops init inv_time_init) as [L _].
+  rewrite Forall_forall in L. specialize (L _ H). cbn in L. destruct L as (A & B & C).
+  repeat split; try lia; try assumption.
+  intros F. unfold add_dur in B. apply Z.leb_le in F. rewrite F in B. lia.
+Qed.
+
+(* no early wake-up: the timer thread calls wake() only for an entry whose
+   deadline is strictly before its clock reading *)
+Theorem no_early_wake : forall ops w now,
+  In (EvWoken w now) (log (run ops init)) -> w_dl w < now <= clock (run ops init).
+Proof.
+  intros ops w now H.
+  destruct (inv_time_run ops init inv_time_init) as [L _].
+  rewrite Forall_forall in L. exact (L _ H).
+Qed.
+
+(* ------------------------------------------ the timer thread's wait invariant *)
+(* whenever the thread blocks in recv/recv_timeout: the timeout was computed from
+   the earliest deadline of the heap, and at the clock reading `seen` (just before
+   blocking) no entry of the heap was due *)
+Definition inv_wait (s : st) : Prop :=
+  match pc s with
+  | Receiving lim seen => lim = min_dl (heap s) /\ seen <= clock s /\ none_due seen (heap s) = true
+  | _ => True
+  end.
+
+Lemma poll_clock : forall s id delta, clock s <= clock (fst (do_poll s id delta)).
+Proof.
+  intros. unfold do_poll. destruct (find_sleep id (sleeps s)); [|cbn; lia].
+  destruct (elapsed s0 (clock s)); [destruct (s_dl s0); cbn; lia|].
+  cbn zeta. destruct (s_dl s0), (pc s); cbn [fst clock]; lia.
+Qed.
+
+Lemma inv_wait_step : forall s o, inv_wait s -> inv_wait (step_st s o).
+Proof.
+  intros s o I. unfold step_st. destruct o; cbn [step].
+  - unfold inv_wait, do_tick in *. cbn [fst pc heap clock]. destruct (pc s); auto.
+    destruct I as (A & B & C). repeat split; auto; lia.
+  - unfold do_sleep. destruct (handles s && (0 <=? dur)); exact I.
+  - exact I.
+  - pose proof (poll_shape s id delta) as H. cbn zeta in H.
+    destruct H as (_ & Hh & Hp & _). pose proof (poll_clock s id delta) as Hc.
+    unfold inv_wait in *. rewrite Hp, Hh. destruct (pc s); auto.
+    destruct I as (A & B & C). repeat split; auto; lia.
+  - unfold do_elapsed. destruct (find_sleep id (sleeps s)); exact I.
+  - unfold do_reset. destruct (find_sleep id (sleeps s)); exact I.
+  - unfold do_drop. destruct (find_sleep id (sleeps s)); exact I.
+  - unfold do_fire. destruct (pc s) eqn:P; try exact I.
+    destruct (find_tok tok (heap s)); [|exact I].
+    destruct (is_min w (heap s) && (w_dl w <? clock s)); [exact Logic.I|exact I].
+  - unfold do_idle. destruct (pc s) eqn:P; try exact I.
+    destruct (none_due (clock s) (heap s)) eqn:N; [|exact I].
+    unfold inv_wait. cbn. repeat split; auto; lia.
+  - unfold do_recv. destruct (pc s) eqn:P; try exact I.
+    destruct (queue s) as [|[w|i] q]; try exact I; exact Logic.I.
+  - unfold do_timeout. destruct (pc s) eqn:P; try exact I. destruct lim; [|exact I].
+    destruct (z <=? clock s); [exact Logic.I|exact I].
+  - unfold do_stop. destruct (pc s) eqn:P; try exact I. destruct (queue s); try exact I.
+    destruct (sleeps s); try exact I. destruct (handles s); try exact I. exact Logic.I.
+Qed.
+
+Lemma inv_wait_run : forall ops s, inv_wait s -> inv_wait (run ops s).
+Proof.
+  induction ops as [|o ops IH]; intros s H; [assumption|].
+  change (run (o :: ops) s) with (run ops (step_st s o)). apply IH. now apply inv_wait_step.
+Qed.
+
+(* ------------------------------------------------- no wake-up is ever lost *)
+Definition acct (s : st) (w : wake) : Prop :=
+  In (MWake w) (queue s) \/ In w (heap s) \/ (exists t, In (EvWoken w t) (log s)) \/
+  In (EvCancelled (w_id w)) (log s).
+Definition inv_lost (s : st) : Prop := forall w, In (EvSent w) (log s) -> acct s w.
+
+Lemma acct_weaken : forall s s' w,
+  (forall m, In m (queue s) -> In m (queue s')) ->
+  (forall x, In x (heap s) -> In x (heap s')) ->
+  (forall e, In e (log s) -> In e (log s')) ->
+  acct s w -> acct s' w.
+Proof.
+  unfold acct. intros s s' w Q H L [A|[A|[[t A]|A]]]; eauto 6.
+Qed.
+
+Lemma inv_lost_step : forall s o, inv_lost s -> inv_lost (step_st s o).
+Proof.
+  intros s o I. unfold step_st. destruct o; cbn [step]; try exact I.
+  - unfold do_sleep. destruct (handles s && (0 <=? dur)); exact I.
+  - (* SPoll *) unfold do_poll. destruct (find_sleep id (sleeps s)) as [sl|]; [|exact I].
+    destruct (elapsed sl (clock s)).
+    + destruct (s_dl sl); [|exact I]. intros w H. cbn in H. destruct H as [H|H]; [discriminate|].
+      eapply acct_weaken; [| | |apply (I w H)]; cbn; auto.
+    + cbn zeta. destruct (pc s) eqn:P; intros w H; cbn [fst log] in H; destruct H as [H|H];
+        try discriminate;
+        try (eapply acct_weaken; [| | |apply (I w H)]; cbn [fst queue heap log]; intros;
+             try apply in_or_app; auto with datatypes; fail).
+      * inv H. left. cbn. apply in_or_app. right. now left.
+      * inv H. left. cbn. apply in_or_app. right. now left.
+  - unfold do_elapsed. destruct (find_sleep id (sleeps s)); exact I.
+  - unfold do_reset. destruct (find_sleep id (sleeps s)); exact I.
+  - unfold do_drop. destruct (find_sleep id (sleeps s)); [|exact I].
+    intros w H. cbn in H. destruct H as [H|H]; [discriminate|].
+    eapply acct_weaken; [| | |apply (I w H)]; cbn [fst queue heap log]; intros; auto with datatypes.
+    destruct (pc s); auto; apply in_or_app; auto.
+  - (* TFire *) unfold do_fire. destruct (pc s) eqn:P; try exact I.
+    destruct (find_tok tok (heap s)) as [w0|] eqn:F; [|exact I].
+    destruct (is_min w0 (heap s) && (w_dl w0 <? clock s)); [|exact I].
+    intros w H. cbn in H. destruct H as [H|H]; [discriminate|].
+    destruct (I w H) as [A|[A|[[t A]|A]]]; unfold acct; cbn [fst queue heap log].
+    + auto.
+    + destruct (del_tok_keep _ _ _ _ F A) as [->|B]; [|auto].
+      right. right. left. exists (clock s). now left.
+    + right. right. left. exists t. now right.
+    + right. right. right. now right.
+  - unfold do_idle. destruct (pc s); try exact I. destruct (none_due (clock s) (heap s)); exact I.
+  - (* TRecv *) unfold do_recv. destruct (pc s) eqn:P; try exact I.
+    destruct (queue s) as [|[w0|i] q] eqn:Q; try exact I; intros w H; cbn [fst log] in H.
+    + destruct (I w H) as [A|[A|[[t A]|A]]]; unfold acct; cbn [fst queue heap log].
+      * rewrite Q in A. destruct A as [A|A]; [inv A; right; left; now left | auto].
+      * right. left. now right.
+      * eauto.
+      * auto.
+    + destruct H as [H|H]; [discriminate|].
+      destruct (I w H) as [A|[A|[[t A]|A]]]; unfold acct; cbn [fst queue heap log].
+      * rewrite Q in A. destruct A as [A|A]; [discriminate | auto].
+      * destruct (Z.eq_dec (w_id w) i) as [E|E].
+        -- right. right. right. left. now rewrite E.
+        -- right. left. apply heap_remove_in. auto.
+      * right. right. left. exists t. now right.
+      * right. right. right. now right.
+  - unfold do_timeout. destruct (pc s); try exact I. destruct lim; [|exact I].
+    destruct (z <=? clock s); exact I.
+  - unfold do_stop. destruct (pc s); try exact I. destruct (queue s) eqn:Q; try exact I.
+    destruct (sleeps s); try exact I. destruct (handles s); try exact I.
+    intros w H. cbn in H. specialize (I w H). unfold acct in *. cbn [fst queue heap log]. now rewrite Q in I.
+Qed.
+
+Lemma inv_lost_run : forall ops s, inv_lost s -> inv_lost (run ops s).
+Proof.
+  induction ops as [|o ops IH]; intros s H; [assumption|].
+  change (run (o :: ops) s) with (run ops (step_st s o)). apply IH. now apply inv_lost_step.
+Qed.
+
+Lemma none_due_in : forall now h x, none_due now h = true -> In x h -> now <= w_dl x.
+Proof.
+  unfold none_due. intros now h x H Hx. rewrite forallb_forall in H. apply Z.leb_le. auto.
+Qed.
+
+(* fires_when_due: a Wake that was sent and has been taken out of the channel, whose
+   sleep was not cancelled, HAS been woken by the time the timer thread blocks in
+   recv with a clock reading past the deadline *)
+Theorem fires_when_due : forall ops w lim seen,
+  let s := run ops init in
+  In (EvSent w) (log s) ->
+  ~ In (MWake w) (queue s) ->
+  ~ In (EvCancelled (w_id w)) (log s) ->
+  pc s = Receiving lim seen -> w_dl w < seen ->
+  exists t, In (EvWoken w t) (log s) /\ w_dl w < t.
+Proof.
+  intros ops w lim seen s Hs Hq Hc Hp Hd.
+  assert (L : inv_lost s) by (apply inv_lost_run; intros x []).
+  assert (W : inv_wait s) by (apply inv_wait_run; exact Logic.I).
+  destruct (L w Hs) as [A|[A|[[t A]|A]]]; try tauto.
+  - unfold inv_wait in W. rewrite Hp in W. destruct W as (_ & _ & N).
+    pose proof (none_due_in _ _ _ N A). lia.
+  - exists t. split; [assumption|]. apply (no_early_wake ops w t A).
+Qed.
+
+(* the thread never sleeps past a deadline it holds: the recv timeout is computed
+   from the minimal deadline of the heap *)
+Theorem timer_waits_until_next_deadline : forall ops lim seen,
+  let s := run ops init in
+  pc s = Receiving lim seen ->
+  lim = min_dl (heap s) /\ (forall x, In x (heap s) -> seen <= w_dl x) /\ seen <= clock s.
+Proof.
+  intros ops lim seen s Hp.
+  assert (W : inv_wait s) by (apply inv_wait_run; exact Logic.I).
+  unfold inv_wait in W. rewrite Hp in W. destruct W as (A & B & C).
+  repeat split; auto. intros x Hx. eapply none_due_in; eauto.
+Qed.
+
+(* ------------------------------------------------------ tokens are unique *)
+From Coq Require Import Permutation.
+
+Definition wtoks (q : list msg) : list Z :=
+  flat_map (fun m => match m with MWake w => [w_tok w] | MCancel _ => [] end) q.
+Definition all_toks (s : st) : list Z := map w_tok (heap s) ++ wtoks (queue s).
+Definition inv_tok (s : st) : Prop :=
+  NoDup (all_toks s) /\ forall t, In t (all_toks s) -> t < next_tok s.
+
+Lemma NoDup_snoc : forall (l : list Z) x, NoDup l -> ~ In x l -> NoDup (l ++ [x]).
+Proof.
+  intros l x H N. apply NoDup_rev in H. rewrite <- (rev_involutive (l ++ [x])).
+  apply NoDup_rev. rewrite rev_app_distr. cbn. constructor; [|assumption].
+  intro I. apply N. now apply in_rev.
+Qed.
+
+Lemma NoDup_app_iff : forall (l r : list Z),
+  NoDup (l ++ r) <-> NoDup l /\ NoDup r /\ (forall x, In x l -> ~ In x r).
+Proof.
+  induction l as [|a l IH]; cbn; intros r.
+  - split; [intros H; repeat split; [constructor|assumption|tauto] | tauto].
+  - split.
+    + intros H. inv H. apply IH in H3. destruct H3 as (A & B & C).
+      rewrite in_app_iff in H2. repeat split; auto.
+      * constructor; tauto.
+      * intros x [->|Hx]; [tauto | auto].
+    + intros (A & B & C). inv A. constructor.
+      * rewrite in_app_iff. intros [H|H]; [tauto | apply (C a); auto].
+      * apply IH. repeat split; auto.
+Qed.
+
+Lemma sub_nodup : forall (h h' : list wake) r,
+  (forall x, In x (map w_tok h') -> In x (map w_tok h)) ->
+  NoDup (map w_tok h') ->
+  NoDup (map w_tok h ++ r) -> NoDup (map w_tok h' ++ r).
+Proof.
+  intros h h' r Sub N H. apply NoDup_app_iff in H. destruct H as (A & B & C).
+  apply NoDup_app_iff. repeat split; auto.
+Qed.
+
+Lemma del_tok_nodup : forall tok h, NoDup (map w_tok h) -> NoDup (map w_tok (del_tok tok h)).
+Proof.
+  induction h as [|a h IH]; cbn; intros N; [constructor|]. inv N.
+  destruct (w_tok a =? tok); [assumption|]. cbn. constructor; [|auto].
+  intro I. apply H1. apply in_map_iff in I. destruct I as (x & E & I).
+  apply in_map_iff. exists x. split; [assumption|]. eapply del_tok_in; eauto.
+Qed.
+
+Lemma filter_nodup_map : forall (p : wake -> bool) h,
+  NoDup (map w_tok h) -> NoDup (map w_tok (filter p h)).
+Proof.
+  induction h as [|a h IH]; cbn; intros N; [constructor|]. inv N.
+  destruct (p a); cbn; [constructor|]; auto.
+  intro I. apply H1. apply in_map_iff in I. destruct I as (x & E & I).
+  apply in_map_iff. exists x. split; [assumption|]. apply filter_In in I. tauto.
+Qed.
+
+Lemma inv_tok_init : inv_tok init.
+Proof. split; [constructor | intros t []]. Qed.
+
+Lemma inv_tok_step : forall s o, inv_tok s -> inv_tok (step_st s o).
+Proof.
+  intros s o I. pose proof I as [N B]. unfold step_st, all_toks in *.
+  destruct o; cbn [step]; try exact I.
+  - unfold do_sleep. destruct (handles s && (0 <=? dur)); exact I.
+  - (* SPoll *) unfold do_poll. destruct (find_sleep id (sleeps s)) as [sl|]; [|exact I].
+    destruct (elapsed sl (clock s)); [destruct (s_dl sl); exact I|].
+    cbn zeta. destruct (pc s); unfold inv_tok, all_toks; cbn [fst heap queue next_tok];
+      try (split; [assumption | intros t Ht; specialize (B t Ht); lia]);
+      (unfold wtoks; rewrite flat_map_app; cbn [flat_map w_tok app]; rewrite app_assoc; split;
+       [apply NoDup_snoc; [assumption|]; intro A; specialize (B _ A); lia
+       | intros t Ht; apply in_app_iff in Ht; destruct Ht as [Ht|[<-|[]]]; [specialize (B t Ht)|]; lia]).
+  - unfold do_elapsed. destruct (find_sleep id (sleeps s)); exact I.
+  - unfold do_reset. destruct (find_sleep id (sleeps s)); exact I.
+  - unfold do_drop. destruct (find_sleep id (sleeps s)); [|exact I].
+    unfold inv_tok, all_toks. cbn [fst heap queue next_tok].
+    destruct (pc s); try exact I; unfold wtoks; rewrite flat_map_app; cbn [flat_map app];
+      rewrite app_nil_r; exact I.
+  - (* TFire *) unfold do_fire. destruct (pc s); try exact I.
+    destruct (find_tok tok (heap s)) as [w0|]; [|exact I].
+    destruct (is_min w0 (heap s) && (w_dl w0 <? clock s)); [|exact I].
+    unfold inv_tok, all_toks. cbn [fst heap queue next_tok].
+    assert (Sub : forall x, In x (map w_tok (del_tok tok (heap s))) -> In x (map w_tok (heap s))).
+    { intros x Hx. apply in_map_iff in Hx. destruct Hx as (y & E & Hy). apply in_map_iff.
+      exists y. split; [assumption|]. eapply del_tok_in; eauto. }
+    split.
+    + eapply sub_nodup; [exact Sub| |exact N]. apply del_tok_nodup. apply NoDup_app_iff in N. tauto.
+    + intros t Ht. apply B. apply in_app_iff in Ht. apply in_app_iff. destruct Ht; auto.
+  - unfold do_idle. destruct (pc s); try exact I. destruct (none_due (clock s) (heap s)); exact I.
+  - (* TRecv *) unfold do_recv. destruct (pc s); try exact I.
+    destruct (queue s) as [|[w0|i] q] eqn:Q; try exact I; unfold inv_tok, all_toks;
+      cbn [fst heap queue next_tok]; cbn [wtoks flat_map app] in N, B; fold (wtoks q) in N, B.
+    + assert (P : Permutation (map w_tok (heap s) ++ w_tok w0 :: wtoks q)
+                              (map w_tok (w0 :: heap s) ++ wtoks q)).
+      { cbn. symmetry. apply Permutation_middle. }
+      split; [eapply Permutation_NoDup; eauto|].
+      intros t Ht. apply B. eapply Permutation_in; [symmetry; exact P|exact Ht].
+    + assert (Sub : forall x, In x (map w_tok (heap_remove i (heap s))) -> In x (map w_tok (heap s))).
+      { intros x Hx. apply in_map_iff in Hx. destruct Hx as (y & E & Hy). apply in_map_iff.
+        exists y. split; [assumption|]. apply heap_remove_in in Hy. tauto. }
+      split.
+      * eapply sub_nodup; [exact Sub| |exact N]. apply filter_nodup_map. apply NoDup_app_iff in N. tauto.
+      * intros t Ht. apply B. apply in_app_iff in Ht. apply in_app_iff. destruct Ht; auto.
+  - unfold do_timeout. destruct (pc s); try exact I. destruct lim; [|exact I].
+    destruct (z <=? clock s); exact I.
+  - unfold do_stop. destruct (pc s); try exact I. destruct (queue s) eqn:Q; try exact I.
+    destruct (sleeps s); try exact I. destruct (handles s); try exact I.
+    unfold inv_tok, all_toks. cbn [fst heap queue next_tok]. split; assumption.
+Qed.
+
+Lemma inv_tok_run : forall ops s, inv_tok s -> inv_tok (run ops s).
+Proof.
+  induction ops as [|o ops IH]; intros s H; [assumption|].
+  change (run (o :: ops) s) with (run ops (step_st s o)). apply IH. now apply inv_tok_step.
+Qed.
+
+(* --------------------------------------------- progress of the timer thread *)
+Lemma exists_min : forall h, h <> [] -> exists m, In m h /\ is_min m h = true.
+Proof.
+  induction h as [|a t IH]; [congruence|]. intros _.
+  destruct t as [|b t'].
+  - exists a. split; [now left|]. cbn. now rewrite Z.leb_refl.
+  - destruct IH as (m & Hm & Mm); [discriminate|].
+    unfold is_min in *. rewrite forallb_forall in Mm.
+    destruct (Z_le_gt_dec (w_dl a) (w_dl m)) as [L|G].
+    + exists a. split; [now left|]. apply forallb_forall. intros x [<-|Hx]; [apply Z.leb_refl|].
+      apply Z.leb_le. specialize (Mm x Hx). apply Z.leb_le in Mm. lia.
+    + exists m. split; [now right|]. apply forallb_forall. intros x [<-|Hx]; [apply Z.leb_le; lia|auto].
+Qed.
+
+Lemma find_tok_nodup : forall h m, NoDup (map w_tok h) -> In m h -> find_tok (w_tok m) h = Some m.
+Proof.
+  induction h as [|a h IH]; cbn; intros m N Hm; [tauto|]. inv N.
+  destruct Hm as [->|Hm]; [now rewrite Z.eqb_refl|].
+  destruct (w_tok a =? w_tok m) eqn:E; [|auto].
+  apply Z.eqb_eq in E. exfalso. apply H1. rewrite E. now apply in_map.
+Qed.
+
+Lemma del_tok_length : forall tok h w, find_tok tok h = Some w -> S (length (del_tok tok h)) = length h.
+Proof.
+  induction h as [|a h IH]; cbn; intros w F; [discriminate|].
+  destruct (w_tok a =? tok); [reflexivity|]. cbn. f_equal. eauto.
+Qed.
+
+Lemma none_due_false : forall now h, none_due now h = false -> exists x, In x h /\ w_dl x < now.
+Proof.
+  unfold none_due. induction h as [|a h IH]; cbn; [discriminate|]. intros H.
+  apply andb_false_iff in H. destruct H as [H|H].
+  - exists a. split; [now left|]. apply Z.leb_gt in H. lia.
+  - destruct (IH H) as (x & Hx & L). exists x. split; [now right|assumption].
+Qed.
+
+(* at the top of its loop the thread can always take a step: wake a due entry of
+   minimal deadline, or (nothing due) go and block in recv *)
+Theorem timer_progress : forall s, pc s = Firing -> inv_tok s ->
+  (exists tok w, snd (step s (TFire tok)) = OWoken w /\ In w (heap s) /\ w_dl w < clock s /\
+                 is_min w (heap s) = true) \/
+  (none_due (clock s) (heap s) = true /\ snd (step s TIdle) = ONone).
+Proof.
+  intros s P [N _]. destruct (none_due (clock s) (heap s)) eqn:D.
+  - right. split; [reflexivity|]. cbn. unfold do_idle. now rewrite P, D.
+  - left. destruct (none_due_false _ _ D) as (x & Hx & Lx).
+    destruct (exists_min (heap s)) as (m & Hm & Mm); [intro E; rewrite E in Hx; inv Hx|].
+    assert (Dm : w_dl m < clock s).
+    { unfold is_min in Mm. rewrite forallb_forall in Mm. specialize (Mm x Hx). apply Z.leb_le in Mm. lia. }
+    exists (w_tok m), m. cbn. unfold do_fire. rewrite P.
+    unfold all_toks in N. apply NoDup_app_iff in N. destruct N as (N & _).
+    rewrite (find_tok_nodup _ _ N Hm), Mm. apply Z.ltb_lt in Dm. rewrite Dm. cbn. apply Z.ltb_lt in Dm. auto.
+Qed.
+
+(* the fire loop terminates: after finitely many TFire steps (no time needs to
+   pass) the thread reaches recv, and then nothing in the heap is due *)
+Lemma drain : forall n s, (length (heap s) <= n)%nat -> pc s = Firing -> inv_tok s ->
+  exists toks, let s' := run (map TFire toks ++ [TIdle]) s in
+    pc s' = Receiving (min_dl (heap s')) (clock s) /\ clock s' = clock s /\ queue s' = queue s /\
+    none_due (clock s) (heap s') = true.
+Proof.
+  induction n as [|n IH]; intros s L P T.
+  - exists []. assert (E : heap s = []) by (destruct (heap s); [reflexivity | cbn in L; lia]).
+    cbn. unfold step_st. cbn. unfold do_idle. rewrite P, E. cbn. auto.
+  - destruct (timer_progress s P T) as [(tok & w & O & Hw & Dw & Mw)|[D O]].
+    + cbn in O. unfold do_fire in O. rewrite P in O.
+      destruct (find_tok tok (heap s)) as [w0|] eqn:F; [|discriminate].
+      destruct (is_min w0 (heap s) && (w_dl w0 <? clock s)) eqn:G; [|discriminate].
+      set (s1 := step_st s (TFire tok)).
+      assert (E1 : s1 = fst (do_fire s tok)) by reflexivity.
+      unfold do_fire in E1. rewrite P, F, G in E1. cbn [fst] in E1.
+      assert (P1 : pc s1 = Firing) by (rewrite E1; reflexivity).
+      assert (L1 : (length (heap s1) <= n)%nat).
+      { rewrite E1. cbn [heap]. pose proof (del_tok_length _ _ _ F). lia. }
+      assert (T1 : inv_tok s1) by (apply inv_tok_step; assumption).
+      destruct (IH s1 L1 P1 T1) as (toks & H).
+      exists (tok :: toks). cbn zeta in *.
+      change (run (map TFire (tok :: toks) ++ [TIdle]) s) with (run (map TFire toks ++ [TIdle]) s1).
+      assert (C1 : clock s1 = clock s) by (rewrite E1; reflexivity).
+      assert (Q1 : queue s1 = queue s) by (rewrite E1; reflexivity).
+      rewrite C1, Q1 in H. exact H.
+    + exists []. cbn. unfold step_st. cbn. unfold do_idle. rewrite P, D. cbn. auto.
+Qed.
+
+Lemma fire_log_keep : forall toks s e, In e (log s) -> In e (log (run (map TFire toks) s)).
+Proof.
+  induction toks as [|k ks IH]; intros s e A; [exact A|].
+  change (run (map TFire (k :: ks)) s) with (run (map TFire ks) (step_st s (TFire k))).
+  apply IH. unfold step_st. cbn [step]. unfold do_fire. destruct (pc s); try exact A.
+  destruct (find_tok k (heap s)); [|exact A].
+  destruct (is_min w (heap s) && (w_dl w <? clock s)); [|exact A]. cbn. now right.
+Qed.
+
+Lemma fire_acct : forall toks s x, In x (heap s) ->
+  let s' := run (map TFire toks) s in
+  In x (heap s') \/ exists t, In (EvWoken x t) (log s').
+Proof.
+  induction toks as [|tok toks IH]; intros s x Hx; [left; exact Hx|].
+  cbn zeta. change (run (map TFire (tok :: toks)) s) with (run (map TFire toks) (step_st s (TFire tok))).
+  set (s1 := step_st s (TFire tok)).
+  assert (A : In x (heap s1) \/ exists t, In (EvWoken x t) (log s1)).
+  { unfold s1, step_st. cbn [step]. unfold do_fire. destruct (pc s); try (left; exact Hx).
+    destruct (find_tok tok (heap s)) as [w0|] eqn:F; [|left; exact Hx].
+    destruct (is_min w0 (heap s) && (w_dl w0 <? clock s)); [|left; exact Hx].
+    cbn [fst heap log]. destruct (del_tok_keep _ _ _ _ F Hx) as [->|B]; [|auto].
+    right. exists (clock s). now left. }
+  destruct A as [A|[t A]]; [now apply IH|].
+  right. exists t. now apply fire_log_keep.
+Qed.
+
+(* fires_when_due, constructive form: from ANY reachable state in which the thread
+   is at the top of its loop there is a continuation of timer-thread steps alone
+   (no clock advance, no help from other threads) that wakes every heap entry
+   whose deadline is before the current clock and then blocks in recv *)
+Theorem due_entries_get_woken : forall ops,
+  let s := run ops init in
+  pc s = Firing ->
+  exists toks, let s' := run (map TFire toks ++ [TIdle]) s in
+    (forall x, In x (heap s) -> w_dl x < clock s -> exists t, In (EvWoken x t) (log s')) /\
+    (exists lim, pc s' = Receiving lim (clock s)) /\ clock s' = clock s.
+Proof.
+  intros ops s P.
+  assert (T : inv_tok s) by (apply inv_tok_run, inv_tok_init).
+  destruct (drain (length (heap s)) s (le_n _) P T) as (toks & H). cbn zeta in H.
+  exists toks. cbn zeta. destruct H as (Hp & Hc & Hq & Hn).
+  split; [|split; [eexists; exact Hp|exact Hc]].
+  intros x Hx Dx. rewrite run_app in *.
+  set (s1 := run (map TFire toks) s) in *.
+  assert (E : heap (run [TIdle] s1) = heap s1 /\ log (run [TIdle] s1) = log s1).
+  { cbn. unfold step_st. cbn. unfold do_idle. destruct (pc s1); auto.
+    destruct (none_due (clock s1) (heap s1)); auto. }
+  destruct E as [Eh El]. rewrite El. rewrite Eh in Hn.
+  destruct (fire_acct toks s x Hx) as [A|A]; [|exact A].
+  fold s1 in A. pose proof (none_due_in _ _ _ Hn A). lia.
+Qed.
+
+(* ----------------------------------------------------- the Sleep side *)
+(* "always completes after it": polled at a clock reading after its deadline, a
+   Sleep returns Ready *)
+Theorem poll_ready_after_deadline : forall s id sl d delta,
+  find_sleep id (sleeps s) = Some sl -> s_dl sl = Some d -> d < clock s ->
+  snd (step s (SPoll id delta)) = OPoll true d.
+Proof.
+  intros s id sl d delta F D L. cbn. unfold do_poll, elapsed. rewrite F, D.
+  apply Z.ltb_lt in L. now rewrite L.
+Qed.
+
+(* ...in particular after the waker was woken for the sleep's current deadline *)
+Theorem woken_then_ready : forall ops w t sl delta,
+  let s := run ops init in
+  In (EvWoken w t) (log s) ->
+  find_sleep (w_id w) (sleeps s) = Some sl -> s_dl sl = Some (w_dl w) ->
+  snd (step s (SPoll (w_id w) delta)) = OPoll true (w_dl w).
+Proof.
+  intros ops w t sl delta s H F D.
+  eapply poll_ready_after_deadline; eauto.
+  pose proof (no_early_wake ops w t H). fold s in H0. lia.
+Qed.
+
+(* the first poll is never Ready (deadline is None), whatever the duration *)
+Theorem first_poll_pending : forall s id sl delta,
+  find_sleep id (sleeps s) = Some sl -> s_dl sl = None ->
+  exists d, snd (step s (SPoll id delta)) = OPoll false d.
+Proof.
+  intros s id sl delta F D. cbn. unfold do_poll, elapsed. rewrite F, D. cbn zeta.
+  destruct (pc s); eexists; reflexivity.
+Qed.
+
+(* the send in Sleep::poll never fails ("Shouldn't fail to send") *)
+Theorem no_send_failure : forall ops, ~ In EvPanic (log (run ops init)).
+Proof.
+  intros ops.
+  assert (G : forall ops s, inv_cancel s -> ~ In EvPanic (log s) -> ~ In EvPanic (log (run ops s))).
+  { clear ops. induction ops as [|o ops IH]; intros s I N; [exact N|].
+    change (run (o :: ops) s) with (run ops (step_st s o)).
+    apply IH; [now apply inv_cancel_step|].
+    destruct I as [_ S]. unfold step_st. destruct o; cbn [step]; try exact N.
+    - unfold do_sleep. destruct (handles s && (0 <=? dur)); exact N.
+    - unfold do_poll. destruct (find_sleep id (sleeps s)) eqn:F; [|exact N].
+      destruct (elapsed s0 (clock s)).
+      + destruct (s_dl s0); [|exact N]. cbn. intros [H|H]; [discriminate|auto].
+      + cbn zeta. destruct (pc s) eqn:P; cbn; try (intros [H|H]; [discriminate|auto]).
+        destruct (S eq_refl) as [E _]. rewrite E in F. discriminate.
+    - unfold do_elapsed. destruct (find_sleep id (sleeps s)); exact N.
+    - unfold do_reset. destruct (find_sleep id (sleeps s)); exact N.
+    - unfold do_drop. destruct (find_sleep id (sleeps s)); [|exact N]. cbn. intros [H|H]; [discriminate|auto].
+    - unfold do_fire. destruct (pc s); try exact N. destruct (find_tok tok (heap s)); [|exact N].
+      destruct (is_min w (heap s) && (w_dl w <? clock s)); [|exact N]. cbn. intros [H|H]; [discriminate|auto].
+    - unfold do_idle. destruct (pc s); try exact N. destruct (none_due (clock s) (heap s)); exact N.
+    - unfold do_recv. destruct (pc s); try exact N. destruct (queue s) as [|[w|i] q]; try exact N.
+      cbn. intros [H|H]; [discriminate|auto].
+    - unfold do_timeout. destruct (pc s); try exact N. destruct lim; [|exact N].
+      destruct (z <=? clock s); exact N.
+    - unfold do_stop. destruct (pc s); try exact N. destruct (queue s); try exact N.
+      destruct (sleeps s); try exact N. destruct (handles s); exact N. }
+  apply G; [apply inv_cancel_init | intros []].
+Qed.
+
+(* ------------------------------------------------------------- witnesses *)
+(* the window between drop and consumption of the Cancel: the wake-up is issued
+   AFTER the Sleep was dropped (log is newest first) *)
+Theorem drop_window_exists :
+  exists ops w,
+    let s := run ops init in
+    dropped (w_id w) s /\ ~ cancel_consumed (w_id w) s /\
+    log s = [EvWoken w 10; EvDropped (w_id w); EvSent w].
+Proof.
+  exists [HSleep 5; SPoll 0 0; TIdle; TRecv; Tick 10; SDrop 0; TFire 0], (mkW 0 5 0).
+  cbn zeta. split; [|split].
+  - split; vm_compute; [split; discriminate | reflexivity].
+  - unfold cancel_consumed. vm_compute. discriminate.
+  - vm_compute. reflexivity.
+Qed.
+
+(* non-vacuity: a reachable state with two sleeps, one cancelled and consumed, one
+   woken at its deadline and then Ready *)
+Definition demo_ops : list op :=
+  [HSleep 5; HSleep 7; SPoll 0 0; SPoll 1 0; TIdle; TRecv; TIdle; TRecv; SDrop 0; TIdle; TRecv;
+   Tick 8; TFire 1; TIdle; SPoll 1 0].
+
+Example demo_facts :
+  let s := run demo_ops init in
+  dropped 0 s /\ cancel_consumed 0 s /\
+  In (EvWoken (mkW 1 7 1) 8) (log s) /\ In (EvReady 1 8 7 0 7) (log s) /\
+  woken_of 0 (log s) = [] /\ pc s = Receiving None 8.
+Proof.
+  cbn zeta. repeat split; try (vm_compute; tauto); try (vm_compute; discriminate).
 Qed.
